@@ -406,6 +406,7 @@ NoEmptyModules(M) ==
 (* first failing clause of a module (later clauses rely on earlier ones: evaluated lazily), or OK *)
 ModuleWitness(D, M) ==
     LET c1 == UniqueNames(M) IN IF c1 # OK THEN <<"UniqueNames", c1>> ELSE
+    LET c9 == NoEmptyModules(M) IN IF c9 # OK THEN <<"NoEmptyModules", c9>> ELSE
     LET c2 == RefsExist(D, M) IN IF c2 # OK THEN <<"RefsExist", c2>> ELSE
     LET ww == WidthFn(M) IN
     LET c3 == SlicesInBounds(M, ww) IN IF c3 # OK THEN <<"SlicesInBounds", c3>> ELSE
@@ -413,8 +414,7 @@ ModuleWitness(D, M) ==
     LET c5 == PortIdsDense(M) IN IF c5 # OK THEN <<"PortIdsDense", c5>> ELSE
     LET c6 == SubmoduleCellsMatch(D, M, ww) IN IF c6 # OK THEN <<"SubmoduleCellsMatch", c6>> ELSE
     LET c7 == ForeignInstanceFaithful(D, M, ww) IN IF c7 # OK THEN <<"ForeignInstanceFaithful", c7>> ELSE
-    LET c8 == ExactlyOneDriver(D, M, ww) IN IF c8 # OK THEN <<"ExactlyOneDriver", c8>> ELSE
-    LET c9 == NoEmptyModules(M) IN IF c9 # OK THEN <<"NoEmptyModules", c9>> ELSE OK
+    LET c8 == ExactlyOneDriver(D, M, ww) IN IF c8 # OK THEN <<"ExactlyOneDriver", c8>> ELSE OK
 
 (* document level: module names are unique, and every foreign instance the design asked for occurs *)
 (* exactly once                                                                                  *)
